@@ -80,6 +80,12 @@ func (l *Lexer) NextToken() (lexer.Token, error) {
 		// Read the next character from the input stream.
 		r, err := l.in.Next()
 		if err != nil {
+			// The input ended in the middle of a lexeme: evaluate what has been read so far,
+			// so that the last token of an input without a trailing newline is not lost.
+			if errors.Is(err, io.EOF) && curr != 0 {
+				return l.evalToken(curr)
+			}
+
 			return lexer.Token{}, err
 		}
 
@@ -90,19 +96,25 @@ func (l *Lexer) NextToken() (lexer.Token, error) {
 			// Retract one character, as the last read character did not belong to the current token.
 			l.in.Retract()
 
-			// Evaluate the final state of the DFA.
-			token := l.evalDFA(curr)
-
-			switch token.Terminal {
-			case ERR:
-				return lexer.Token{}, errors.New(token.Lexeme)
-			case WS, EOL, COMMENT:
-				// Skip whitespaces, newlines, and comments.
-				return l.NextToken()
-			default:
-				return token, nil
-			}
+			return l.evalToken(curr)
 		}
+	}
+}
+
+// evalToken evaluates the final state of the DFA and returns the recognized token.
+// Whitespaces, newlines, and comments are skipped, and an invalid final state results in an error.
+func (l *Lexer) evalToken(state int) (lexer.Token, error) {
+	// Evaluate the final state of the DFA.
+	token := l.evalDFA(state)
+
+	switch token.Terminal {
+	case ERR:
+		return lexer.Token{}, errors.New(token.Lexeme)
+	case WS, EOL, COMMENT:
+		// Skip whitespaces, newlines, and comments.
+		return l.NextToken()
+	default:
+		return token, nil
 	}
 }
 
